@@ -19,12 +19,14 @@ RULE = ("documents: a catalogue of ~60 shapes (anchored / aliased scalars, seque
         "aliased members; scalar documents; keys that need escaping or that the notation cannot express) and seeded random "
         "documents (depth <= 3, same features) x the 9 operators x plain/inverted x a term alphabet (incl. regular "
         "expressions, answered for the model by Python re) x {values, keys, keys-only} x the four alias-inclusion modes x "
-        "--refnames on/off x expand on/off x both notations: the catalogue is crossed with ALL 96 option mixes, random "
+        "--refnames on/off x expand on/off x the THREE separators the tool accepts (PathSeparators DOT, FSLASH and AUTO - `--pathsep auto`, "
+        "which renders dot notation; handed to search_for_paths as the enum member and to main() as the option): the catalogue is crossed with ALL 144 option mixes, random "
         "documents with a seeded sample of them.  Per case: the real search_for_paths is called in-process and the list of "
         "str(path) in order is compared with the Lean model (whose address list is proved equal to the specification "
         "Spec.found); then EVERY printed path is fed to the real Processor.get_nodes(mustexist=True) on the same document and "
         "must resolve to exactly the node the model reported it for (object identity for containers / anchored scalars, "
-        "parent object + reference for plain scalars).  A sample goes through yaml_paths.main() on a dumped file (stdout vs "
+        "parent object + reference for plain scalars); where the printed list differs from the specification's only in how a path is "
+        "written, the printed text is resolved too and must lead to the node reported at that place.  A sample goes through yaml_paths.main() on a dumped file (stdout vs "
         "the model's de-duplicated list on the reloaded document); get_search_term is compared on every expression of length "
         "<= 3 over 13 characters.  Multi-document streams: 2-3 documents (the same document repeated, catalogue shapes, "
         "random documents) dumped into one file and searched by one yaml_paths.main() run; the lines printed for document N "
@@ -182,6 +184,11 @@ def _classify_reresolve(addr, model_doc, fslash):
     return found[0] if found else None
 
 
+def notation(o):
+    """which PathSeparators member the case hands to the search / to --pathsep"""
+    return "auto" if o.get("sep") == "auto" else "fslash" if o["fslash"] else "dot"
+
+
 def opt_sig(o):
     return "%s:%s%s%s" % (o["km"], o["am"], ":refnames" if o["sa"] else "", ":expand" if o["expand"] else "")
 
@@ -215,7 +222,7 @@ def run_chunk(job):
     for i, (src, cases, root, anchors, mj) in enumerate(built):
         for ci, (term, opts) in enumerate(cases):
             r = {"op": "C07.search", "doc": mj, "term": term,
-                 "opts": {k: opts[k] for k in ("sv", "sk", "sa", "ika", "iva", "expand", "fslash")}}
+                 "opts": sg.model_opts(opts)}
             if term["m"] == "REGEX":
                 r["rx"] = [[term["term"], tx, cc.rx_answer(term["term"], tx)] for tx in texts[i]]
             reqs.append(r)
@@ -235,6 +242,7 @@ def run_chunk(job):
         impl = sg.impl_search(root, anchors, term, opts)
         count("op:" + term["m"] + ("!" if term["inv"] else ""))
         count("opts:" + opt_sig(opts))
+        count("notation:" + notation(opts))
         if "timeout" in impl:
             viol.append(("timeout", "search_for_paths did not finish in 10 s", case))
             continue
@@ -262,8 +270,27 @@ def run_chunk(job):
             kind = ("extra" if extra else "") + ("+" if extra and missing else "") + ("missing" if missing else "")
             kind = kind or "order"
             viol.append(("search-%s:%s" % (kind, opt_sig(opts)),
-                         "search_for_paths printed %r; the specification demands %r (not demanded: %r; not reported: %r)"
-                         % (got, mpaths, extra, missing), case))
+                         "search_for_paths (separator %s) printed %r; the specification demands %r (not demanded: %r; not reported: %r)"
+                         % (notation(opts), got, mpaths, extra, missing), case))
+            # the clause "every reported path … resolves to exactly the one node that matched" on what WAS printed:
+            # where the two lists differ only in how a path is written, the printed text must still lead to the
+            # node the specification reports at that place of the list
+            if len(got) == len(mpaths):
+                for p, q, a in zip(got, mpaths, maddrs):
+                    if p == q:
+                        continue
+                    # one path text may stand for several addresses (an aliased node is one object at each of them)
+                    want = set(sg.key_of_addr(root, a2, anchors) for q2, a2 in zip(mpaths, maddrs) if q2 == q)
+                    res = sg.resolve(root, p)
+                    stats["resolved"] += 1
+                    if None in want or (res[0] == "ok" and set(res[1]) == want):
+                        continue
+                    hazard = _classify_reresolve(a, mj, opts["fslash"])
+                    viol.append(("reresolve:%s" % (hazard or ("wrong-node" if res[0] == "ok" else "unresolved:" + str(res[1]))),
+                                 "printed path %r (separator %s; the specification writes %r) does not resolve to exactly the node "
+                                 "it was reported for (%s): %s" % (p, notation(opts), q, a, res[:2] if res[0] != "ok" else
+                                                                   "%d node(s)" % len(res[1])), case))
+                    break
             continue
         if sg.dedup(got) != mo["dedup"]:
             disag.append(("dedup", "unique results %r vs model %r" % (sg.dedup(got), mo["dedup"]), case))
@@ -401,7 +428,7 @@ def main_chunk(job):
         reqs = []
         for p in prepared:
             r = {"op": "C07.search", "doc": p["mj"], "term": {"inv": p["tm"]["inv"], "m": p["tm"]["m"], "term": p["tm"]["term"]},
-                 "opts": {k: p["opts"][k] for k in ("sv", "sk", "sa", "ika", "iva", "expand", "fslash")}}
+                 "opts": sg.model_opts(p["opts"])}
             if "rx" in p:
                 r["rx"] = p["rx"]
             reqs.append(r)
@@ -411,7 +438,7 @@ def main_chunk(job):
             if mo.get("oom"):
                 stats["skipped"] += 1
                 continue
-            argv = ["yaml-paths", "--nostdin", "--nofile", "--pathsep=" + ("/" if opts["fslash"] else "."),
+            argv = ["yaml-paths", "--nostdin", "--nofile", sg.pathsep_arg(opts),
                     {"values": "--ignorekeynames", "keys": "--keynames", "keysonly": "--onlykeynames"}[opts["km"]],
                     {"anchorsonly": "--anchorsonly", "keyaliases": "--allowkeyaliases", "valuealiases": "--allowvaluealiases",
                      "allaliases": "--allowaliases"}[opts["am"]]]
@@ -501,7 +528,7 @@ def multi_chunk(job):
         for pi, p_ in enumerate(prepared):
             for di, mj in enumerate(p_["mjs"]):
                 r = {"op": "C07.search", "doc": mj, "term": {"inv": p_["tm"]["inv"], "m": p_["tm"]["m"], "term": p_["tm"]["term"]},
-                     "opts": {k: p_["opts"][k] for k in ("sv", "sk", "sa", "ika", "iva", "expand", "fslash")}}
+                     "opts": sg.model_opts(p_["opts"])}
                 if (pi, di) in rxtexts:
                     r["rx"] = [[p_["tm"]["term"], tx, cc.rx_answer(p_["tm"]["term"], tx)] for tx in rxtexts[(pi, di)]]
                 reqs.append(r)
@@ -515,7 +542,7 @@ def multi_chunk(job):
             if any(mo.get("oom") for mo in mos):
                 stats["skipped"] += 1
                 continue
-            argv = ["yaml-paths", "--nostdin", "--pathsep=" + ("/" if opts["fslash"] else "."),
+            argv = ["yaml-paths", "--nostdin", sg.pathsep_arg(opts),
                     {"values": "--ignorekeynames", "keys": "--keynames", "keysonly": "--onlykeynames"}[opts["km"]],
                     {"anchorsonly": "--anchorsonly", "keyaliases": "--allowkeyaliases", "valuealiases": "--allowvaluealiases",
                      "allaliases": "--allowaliases"}[opts["am"]]]
@@ -631,7 +658,7 @@ def mexpr_chunk(job):
         for pi, p_ in enumerate(prepared):
             for tm in p_["tms"]:
                 r = {"op": "C07.search", "doc": p_["mj"], "term": {"inv": tm["inv"], "m": tm["m"], "term": tm["term"]},
-                     "opts": {k: p_["opts"][k] for k in ("sv", "sk", "sa", "ika", "iva", "expand", "fslash")}}
+                     "opts": sg.model_opts(p_["opts"])}
                 if tm["m"] == "REGEX":
                     r["rx"] = [[tm["term"], tx, cc.rx_answer(tm["term"], tx)] for tx in texts[pi]]
                 reqs.append(r)
@@ -654,7 +681,7 @@ def mexpr_chunk(job):
                         union.append(x)
             excepted = set(x for lst in per_expr[ns:] for x in lst)
             want = [x for x in union if x not in excepted]
-            argv = ["yaml-paths", "--nostdin", "--nofile", "--noexpression", "--pathsep=" + ("/" if opts["fslash"] else "."),
+            argv = ["yaml-paths", "--nostdin", "--nofile", "--noexpression", sg.pathsep_arg(opts),
                     {"values": "--ignorekeynames", "keys": "--keynames", "keysonly": "--onlykeynames"}[opts["km"]],
                     {"anchorsonly": "--anchorsonly", "keyaliases": "--allowkeyaliases", "valuealiases": "--allowvaluealiases",
                      "allaliases": "--allowaliases"}[opts["am"]]]
@@ -971,8 +998,10 @@ def _direct_backslash_keys(chk):
             "km": "values", "am": "keyaliases"}
     term = {"inv": False, "m": "EQUALS", "term": "v"}
     for k in keys:
-        for fslash in (False, True):
+        for fslash, sep in ((False, None), (True, None), (False, "auto")):
             opts = dict(base, fslash=fslash)
+            if sep:
+                opts["sep"] = sep
             src = {"k": "map", "e": [[k, {"k": "str", "v": "v"}], ["z", {"k": "str", "v": "w"}]]}
             root = sg.build(src)
             impl = sg.impl_search(root, sg.real_all_anchors(root), term, opts)
